@@ -5,3 +5,4 @@ import PysparklingVerif.Properties.C18
 import PysparklingVerif.Properties.C02
 import PysparklingVerif.Properties.C04
 import PysparklingVerif.Properties.C17
+import PysparklingVerif.Properties.C09
